@@ -814,3 +814,120 @@ Proof.
   - destruct (existsb _ (seq 0 n)) eqn:E; [|reflexivity]. exfalso. apply H2.
     apply existsb_exists in E. destruct E as (k & Hk & E). apply in_seq in Hk. exists k. split; [lia|exact E].
 Qed.
+
+(* ------------------------------------------------------------------ corollaries in "for every result" form *)
+Section Corollaries.
+  Variable n : nat.
+  Variable next : nat -> nat.
+  Variable w : list Z.
+  Hypothesis next_lt : forall i, i < n -> next i < n.
+  Hypothesis next_up : forall i, i < n -> next i = i \/ (wt w i < wt w (next i))%Z.
+
+  Lemma fit_with_terminates : fit_with n next <> None.
+  Proof. destruct (fit_with_spec n next w next_lt next_up) as (R & E & _). congruence. Qed.
+
+  Lemma fit_with_labels R : fit_with n next = Some R ->
+    length R = n /\
+    forall i, i < n -> exists r, oget R i = Some r /\ r < n /\ next r = r /\ oget R r = Some r /\
+                                 exists k, r = Nat.iter k next i.
+  Proof.
+    intros E. destruct (fit_with_spec n next w next_lt next_up) as (R' & E' & HL & HS).
+    rewrite E in E'. injection E' as <-. split; [exact HL|exact HS].
+  Qed.
+
+  (* the label is THE fixed point reached by iterating [next] *)
+  Lemma fit_with_limit R i r k : fit_with n next = Some R -> i < n ->
+    r = Nat.iter k next i -> next r = r -> oget R i = Some r.
+  Proof.
+    intros E Hi Hr Hf. destruct (fit_with_labels R E) as [_ HS].
+    destruct (HS i Hi) as (r' & A1 & _ & A3 & _ & A5). rewrite A1. f_equal.
+    apply (limit_unique next i r' r); [exact A5|exact A3|exists k; exact Hr|exact Hf].
+  Qed.
+
+  Lemma fit_with_centre R c : fit_with n next = Some R -> c < n ->
+    (oget R c = Some c <-> next c = c).
+  Proof.
+    intros E Hc. split.
+    - intros Ec. destruct (fit_with_labels R E) as [_ HS].
+      destruct (HS c Hc) as (r & A1 & _ & A3 & _). rewrite Ec in A1. injection A1 as <-. exact A3.
+    - intros Hf. apply (fit_with_limit R c c 0 E Hc); [reflexivity|exact Hf].
+  Qed.
+
+  Lemma centres_spec R c : fit_with n next = Some R ->
+    (In c (centres R) <-> c < n /\ next c = c).
+  Proof.
+    intros E. destruct (fit_with_labels R E) as [HL _]. unfold centres. rewrite filter_In, in_seq, HL.
+    split.
+    - intros [Hc Hb]. assert (Hc' : c < n) by lia. split; [exact Hc'|].
+      apply (fit_with_centre R c E Hc'). destruct (oget R c) as [r|]; cbn in Hb; [|discriminate].
+      apply Nat.eqb_eq in Hb. congruence.
+    - intros [Hc Hf]. split; [lia|]. apply (fit_with_centre R c E Hc) in Hf. rewrite Hf. cbn.
+      apply Nat.eqb_refl.
+  Qed.
+End Corollaries.
+
+(* ------------------------------------------------------------------ both configurations of fit *)
+Section Final.
+  Variable n : nat.
+  Variable D : list (list ExtZ).
+  Variable w : list Z.
+  Hypothesis HD : sq_mat n D.
+  Hypothesis Hw : length w = n.
+  Variable cut : list Z.
+  Variable shell : nat.
+
+  Let ncut := next_cut D w cut.
+  Let ngab := next_gab D w shell.
+  Let cut_lt : forall i, i < n -> ncut i < n := next_cut_lt n D w HD Hw cut.
+  Let cut_up : forall i, i < n -> ncut i = i \/ (wt w i < wt w (ncut i))%Z := fun i _ => next_cut_up D w cut i.
+  Let gab_lt : forall i, i < n -> ngab i < n := next_gab_lt n D w Hw shell.
+  Let gab_up : forall i, i < n -> ngab i = i \/ (wt w i < wt w (ngab i))%Z := fun i _ => next_gab_up D w shell i.
+
+  Lemma fit_cut_eq : fit_cut D w cut = fit_with n ncut.
+  Proof. unfold fit_cut. rewrite (proj1 HD). reflexivity. Qed.
+  Lemma fit_gab_eq : fit_gab D w shell = fit_with n ngab.
+  Proof. unfold fit_gab. rewrite (proj1 HD). reflexivity. Qed.
+
+  Lemma fit_terminates : fit_cut D w cut <> None /\ fit_gab D w shell <> None.
+  Proof.
+    rewrite fit_cut_eq, fit_gab_eq. split.
+    - apply (fit_with_terminates n ncut w cut_lt cut_up).
+    - apply (fit_with_terminates n ngab w gab_lt gab_up).
+  Qed.
+
+  Lemma cut_labels R : fit_cut D w cut = Some R ->
+    length R = n /\
+    forall i, i < n -> exists r, oget R i = Some r /\ r < n /\ ncut r = r /\ oget R r = Some r /\
+                                 exists k, r = Nat.iter k ncut i.
+  Proof. rewrite fit_cut_eq. apply (fit_with_labels n ncut w cut_lt cut_up). Qed.
+  Lemma gab_labels R : fit_gab D w shell = Some R ->
+    length R = n /\
+    forall i, i < n -> exists r, oget R i = Some r /\ r < n /\ ngab r = r /\ oget R r = Some r /\
+                                 exists k, r = Nat.iter k ngab i.
+  Proof. rewrite fit_gab_eq. apply (fit_with_labels n ngab w gab_lt gab_up). Qed.
+
+  Lemma cut_limit R i r k : fit_cut D w cut = Some R -> i < n ->
+    r = Nat.iter k ncut i -> ncut r = r -> oget R i = Some r.
+  Proof. rewrite fit_cut_eq. apply (fit_with_limit n ncut w cut_lt cut_up). Qed.
+  Lemma gab_limit R i r k : fit_gab D w shell = Some R -> i < n ->
+    r = Nat.iter k ngab i -> ngab r = r -> oget R i = Some r.
+  Proof. rewrite fit_gab_eq. apply (fit_with_limit n ngab w gab_lt gab_up). Qed.
+
+  Lemma cut_centres R c : fit_cut D w cut = Some R -> (In c (centres R) <-> c < n /\ ncut c = c).
+  Proof. rewrite fit_cut_eq. apply (centres_spec n ncut w cut_lt cut_up). Qed.
+  Lemma gab_centres R c : fit_gab D w shell = Some R -> (In c (centres R) <-> c < n /\ ngab c = c).
+  Proof. rewrite fit_gab_eq. apply (centres_spec n ngab w gab_lt gab_up). Qed.
+
+  Lemma cut_max_weight R c : fit_cut D w cut = Some R -> c < n ->
+    (forall j, j < n -> (wt w j <= wt w c)%Z) -> oget R c = Some c.
+  Proof.
+    rewrite fit_cut_eq. intros E Hc Hmax. apply (fit_with_centre n ncut w cut_lt cut_up R c E Hc).
+    apply (max_weight_next n D w HD Hw cut shell c Hc Hmax).
+  Qed.
+  Lemma gab_max_weight R c : fit_gab D w shell = Some R -> c < n ->
+    (forall j, j < n -> (wt w j <= wt w c)%Z) -> oget R c = Some c.
+  Proof.
+    rewrite fit_gab_eq. intros E Hc Hmax. apply (fit_with_centre n ngab w gab_lt gab_up R c E Hc).
+    apply (max_weight_next n D w HD Hw cut shell c Hc Hmax).
+  Qed.
+End Final.
